@@ -254,6 +254,14 @@ func (s *semCanon) canon(v absint.Value, k int) string {
 		}
 		return iv.V, true
 	}
+	own := func(i, dflt int) int {
+		if ot, ok := absint.UnwrapV(t.Args[i]).(term); ok {
+			if ow, has := widthOf(s.in, ot); has {
+				return ow
+			}
+		}
+		return dflt
+	}
 	switch t.Fn {
 	case "global expr.Zero":
 		return "k0x0"
@@ -362,9 +370,11 @@ func (s *semCanon) canon(v absint.Value, k int) string {
 	case "exprtools.RshA":
 		return semBin("rsha", w, false, a(0, w), a(1, w))
 	case "exprtools.SignedDiv":
-		return semBin("sdiv", w, false, a(0, w), a(1, w))
+		// the signed helpers take sign and magnitude of an operand at the operand's
+		// own width, so that width is part of the form
+		return semBin("sdiv", w, false, a(0, own(0, w)), a(1, own(1, w)))
 	case "exprtools.SignedMod":
-		return semBin("smod", w, false, a(0, w), a(1, w))
+		return semBin("smod", w, false, a(0, own(0, w)), a(1, own(1, w)))
 	case "exprtools.Mod":
 		return semBin("mod", w, false, a(0, w), a(1, w))
 	case "exprtools.SignedMul":
